@@ -384,6 +384,14 @@ def run(ctx):
     except Skip:
         pass
 
+    # the CLI hands the summary over from its spawn hook: every spawn must have run the hook (rule shared with C09 R09.2 / C18 R18.4)
+    try:
+        from .. import jobtask as _jt17, jobrules as _jr17
+        B17 = _jt17.Bodies(ctx, "R17.8")
+        _jr17.hook_discipline(ctx, B17, rule="R17.8")
+    except Skip:
+        pass
+
     # ---- R17.6 rotate-before-write
     try:
         rt = ctx.anchor_fn("R17.6", "watchexec_cli::state::RotatingTempFile::rotate")
